@@ -83,22 +83,41 @@ impl TraitFnAnalyzer<'_> {
 /// The part of an attribute that decides whether the fn exists:
 /// `#[cfg(..)]` itself, or the `cfg(..)` entries of a `#[cfg_attr(predicate, ..)]` (under the same predicate)
 fn mirrored_cfg_attr(attr: &syn::Attribute) -> Option<syn::Attribute> {
-    if attr.path().is_ident("cfg") {
-        return Some(attr.clone());
+    let meta = cfg_part(&attr.meta)?;
+    Some(syn::parse_quote! { #[#meta] })
+}
+
+fn cfg_part(meta: &syn::Meta) -> Option<proc_macro2::TokenStream> {
+    use quote::ToTokens;
+
+    if meta.path().is_ident("cfg") {
+        return Some(meta.to_token_stream());
     }
-    if !attr.path().is_ident("cfg_attr") {
+    if !meta.path().is_ident("cfg_attr") {
         return None;
     }
-    let mut metas = attr
-        .parse_args_with(syn::punctuated::Punctuated::<syn::Meta, syn::token::Comma>::parse_terminated)
+    let (predicate, entries) = meta
+        .require_list()
         .ok()?
-        .into_iter();
-    let predicate = metas.next()?;
-    let cfgs: Vec<syn::Meta> = metas.filter(|meta| meta.path().is_ident("cfg")).collect();
+        .parse_args_with(|input: syn::parse::ParseStream| {
+            // the predicate is not always a `syn::Meta` (`true`, `false`): take the tokens up to the first comma
+            let mut predicate = proc_macro2::TokenStream::new();
+            while !input.is_empty() && !input.peek(syn::token::Comma) {
+                predicate.extend([input.parse::<proc_macro2::TokenTree>()?]);
+            }
+            let _: Option<syn::token::Comma> = input.parse()?;
+            let entries =
+                syn::punctuated::Punctuated::<syn::Meta, syn::token::Comma>::parse_terminated(
+                    input,
+                )?;
+            Ok((predicate, entries))
+        })
+        .ok()?;
+    let cfgs: Vec<_> = entries.iter().filter_map(cfg_part).collect();
     if cfgs.is_empty() {
         return None;
     }
-    Some(syn::parse_quote! { #[cfg_attr(#predicate, #(#cfgs),*)] })
+    Some(quote::quote! { cfg_attr(#predicate, #(#cfgs),*) })
 }
 
 /// A type or const parameter that no argument determines cannot be inferred in the delegating call:
